@@ -70,6 +70,10 @@ void DynamicConstructorDataGlobal::reloadPoints(std::function<int(int)> getNumPo
             if (i != -1) t.loaded[i] = true;
         }
     }
+
+    for(auto &t : tensors) // a complete tensor waiting to be ejected is marked with an empty vector, see addNewNode()
+        if (std::all_of(t.loaded.begin(), t.loaded.end(), [](bool a)-> bool{ return a; }))
+            t.loaded = std::vector<bool>();
 }
 
 void DynamicConstructorDataGlobal::clearTesnors(){
